@@ -291,6 +291,8 @@ func run(c *hlib.Ctx) {
 	// round 5 (appended, so that the random streams of the kinds above are unchanged)
 	runPolytopes(c)
 	runConjFar(c)
+	// round 6 (appended)
+	runRound6(c)
 }
 
 // soup3 sends a real mesh (exact float coordinates, interned vertex ids) to the proved deciders.
